@@ -250,8 +250,11 @@ def split_model(ex, recv, name, args, kwargs, st):
         st.fact(z3.Implies(z3.Not(z3.Contains(s, sz)), z3.And(n == 1, arr[0] == s)))
         if is_int_const(maxsplit.z) and int_const(maxsplit.z) == 1:
             st.fact(z3.Implies(n == 2, s == z3.Concat(arr[0], sz, arr[1])))
+            st.fact((n == 2) == z3.Contains(s, sz))
             if name == "rsplit":
                 st.fact(z3.Implies(n == 2, z3.Not(z3.Contains(arr[1], sz))))
+                li = z3.LastIndexOf(s, sz)
+                st.fact(z3.Implies(n == 2, z3.And(li >= 0, arr[0] == z3.SubString(s, 0, li), arr[1] == z3.SubString(s, li + z3.Length(sz), z3.Length(s) - li - z3.Length(sz)))))
             else:
                 st.fact(z3.Implies(n == 2, z3.Not(z3.Contains(arr[0], sz))))
     else:
